@@ -18,7 +18,7 @@ EXTENDS Json, TLC, JsonSchema
 CONSTANTS Clauses, OpenDevs, ErrMsgs, WarnMsgs, Contributing
 Trace == ndJsonDeserialize("events.ndjson")
 Swagger == IF "C02" \in Clauses THEN ndJsonDeserialize("swagger.ndjson")[1] ELSE [has |-> <<>>]
-SV == INSTANCE SpecValidator WITH pc <- 0, errs <- 0, warns <- 0, ret <- 0, contrib <- 0   \* only its constant-level operators are used
+SV == INSTANCE SpecValidator WITH pc <- 0, errs <- 0, warns <- 0, ret <- 0, contrib <- 0, circ <- FALSE   \* only its constant-level operators are used
 
 VARIABLES l, fails, first
 vars == <<l, fails, first>>
@@ -39,7 +39,7 @@ Check(ev, k) ==
   IN
   (IF "C07" \in Clauses THEN
      (IF ev.out # "returned" THEN {F(k, ev, "AlwaysReturns: validation ended with " \o ev.out \o " (" \o ev.mode \o ")", "returned", ev.out, "")} ELSE {})
-     \cup (IF ev.out = "returned" /\ ~SV!IsRun(ev.phases, ev.mode) THEN {F(k, ev, "the phase trace is not a run of the SpecValidator phase machine (" \o ev.mode \o ")", "a run", ToString(ev.phases), "")} ELSE {})
+     \cup (IF ev.out = "returned" /\ ~SV!IsRun(ev.phases, ev.mode, ev.circ) THEN {F(k, ev, "the phase trace is not a run of the SpecValidator phase machine (" \o ev.mode \o ")", "a run", ToString(ev.phases), "")} ELSE {})
    ELSE {})
   \cup
   (IF "C10" \in Clauses /\ ev.out = "returned" THEN
